@@ -10,6 +10,8 @@ pub enum It {
     Sep(B, B, usize, i64, bool, bool),
     Enum(Box<It>),
     CfgRep(Box<It>, u8), // 0 = exactly(n), 1 = at_least(n), 2 = at_most(n)
+    /// p.into_iter(): the items are the elements of p's output
+    IntoIter(B),
 }
 
 #[derive(Clone, Debug)]
@@ -151,6 +153,7 @@ impl It {
                 a[5].as_bool().unwrap_or(false),
                 a[6].as_bool().unwrap_or(false),
             ),
+            "intoiter" => It::IntoIter(bx(&a[1])?),
             "enum" => It::Enum(Box::new(It::from_json(&a[1])?)),
             "cfgrep" => It::CfgRep(Box::new(It::from_json(&a[1])?), 0),
             "cfgrepmin" => It::CfgRep(Box::new(It::from_json(&a[1])?), 1),
